@@ -329,3 +329,36 @@ Theorem C10_forward_eof_example :
   sent_counter s = 4 /\ recv_counter s = 2.
 Proof. exact forward_eof_example. Qed.
 Print Assumptions C10_forward_eof_example.
+
+(* ------------------------------------------------------------------------------------------------------------
+   Order of half-closes: the two directions END independently.  If at any point of any schedule the download direction
+   has ended (the peer half-closed first), the upload direction still delivers everything its source hands out, and the
+   download sink keeps exactly what it had; symmetrically for the other order. *)
+Theorem C10_forward_upload_survives_download_end :
+  forall eu ed bu bd up down sched1 sched2,
+  phase_of 1 (frun false (finit_e eu ed bu bd up down) sched1) = PDone ->
+  2 * length up + 1 <= count_occ Nat.eq_dec sched1 0 + count_occ Nat.eq_dec sched2 0 ->
+  phase_of 0 (frun false (finit_e eu ed bu bd up down) (sched1 ++ sched2)) = PDone /\
+  sink_up (frun false (finit_e eu ed bu bd up down) (sched1 ++ sched2)) = concat up /\
+  sink_down (frun false (finit_e eu ed bu bd up down) (sched1 ++ sched2)) = concat down.
+Proof. exact upload_survives_download_end. Qed.
+Print Assumptions C10_forward_upload_survives_download_end.
+
+Theorem C10_forward_download_survives_upload_end :
+  forall eu ed bu bd up down sched1 sched2,
+  phase_of 0 (frun false (finit_e eu ed bu bd up down) sched1) = PDone ->
+  2 * length down + 1 <= count_occ Nat.eq_dec sched1 1 + count_occ Nat.eq_dec sched2 1 ->
+  phase_of 1 (frun false (finit_e eu ed bu bd up down) (sched1 ++ sched2)) = PDone /\
+  sink_down (frun false (finit_e eu ed bu bd up down) (sched1 ++ sched2)) = concat down.
+Proof. exact download_survives_upload_end. Qed.
+Print Assumptions C10_forward_download_survives_upload_end.
+
+(* the variant that CLOSES the local connection when the download direction ends (fallback for a LocalConn without
+   CloseWrite; Model/Forward.v fstep_close) violates it *)
+Theorem C10_forward_close_on_download_end_refuted :
+  exists up down sched1 sched2,
+    phase_of 1 (frun_close (finit [] [] up down) sched1) = PDone /\
+    2 * length up + 1 <= count_occ Nat.eq_dec sched2 0 /\
+    sink_up (frun_close (finit [] [] up down) (sched1 ++ sched2)) <> concat up.
+Proof. exact close_on_download_end_refuted. Qed.
+Print Assumptions C10_forward_close_on_download_end_refuted.
